@@ -86,6 +86,8 @@ def run(ids, tier="quick"):
         if ids and sid not in ids and sid.split("-")[0] not in ids:
             continue
         d = os.path.join(SEEDED, sid)
+        if not os.path.isdir(d):
+            continue
         meta = json.load(open(os.path.join(d, "meta.json")))
         prop = meta["breaks"]
         checks = meta.get("run_checks") or [prop]
@@ -104,7 +106,7 @@ def run(ids, tier="quick"):
                                                                         (detail[0][:160] if detail else "")))
                 if verdict != "CAUGHT":
                     print(out[-500:])
-                results.setdefault(sid, {})[p + ":" + tier] = {"verdict": verdict, "exit": rc,
+                results.setdefault(sid, {})[p + ":" + tier] = {"verdict": verdict, "exit": rc, "seconds": int(time.time() - t0),
                                                                "first": detail[0][:300] if detail else ""}
         finally:
             sh(["git", "-C", "/repo", "checkout", "--", "."])
